@@ -51,6 +51,10 @@ BedRecs ==
   \* both thick fields genuinely zero although the feature does not start at zero
   \cup {[chrom |-> <<99>>, start |-> s, end |-> 7, name |-> <<110>>, score |-> 0, strand |-> 43,
           thickStart |-> 0, thickEnd |-> 0, rgb |-> <<>>, blockSizes |-> <<1>>, blockStarts |-> <<1>>] : s \in {-3, 3}}
+  \* sequence names that are words of other dialects' header lines ("track", "browser1"): to this reader plain names
+  \cup {[chrom |-> ch, start |-> 3, end |-> 7, name |-> <<110>>, score |-> 0, strand |-> 43,
+          thickStart |-> 3, thickEnd |-> 7, rgb |-> <<>>, blockSizes |-> <<1>>, blockStarts |-> <<1>>] :
+           ch \in {<<116, 114, 97, 99, 107>>, <<98, 114, 111, 119, 115, 101, 114, 49>>}}
 
 GffItems ==
   {[kind |-> "feature", seqname |-> <<115>>, source |-> <<46>>, feature |-> <<102>>, start |-> s, end |-> s + 5,
